@@ -451,11 +451,9 @@ class WrapperMixin(object):
             output.append(self.doxygen_cont)
         if "description" in docs:
             desc = docs["description"]
+            lines = desc.split("\n")
             if desc.endswith("\n"):
-                lines = docs["description"].split("\n")
                 lines.pop()  # remove trailing newline
-            else:
-                lines = [desc]
             for line in lines:
                 output.append(self.doxygen_cont + " " + line)
         if "return" in docs:
